@@ -278,6 +278,10 @@ class TcpConnection(object):
         if len(self.__readBuffer) < 4:
             return None
         l = struct.unpack('i', self.__readBuffer[:4])[0]
+        if l < 0:
+            # Not a frame: a negative length would make the slices below cut out arbitrary bytes
+            self.disconnect()
+            return None
         if len(self.__readBuffer) - 4 < l:
             return None
         data = self.__readBuffer[4:4 + l]
